@@ -390,8 +390,9 @@ def snapshot_rule(F, R):
         w = {e[2] for _, _, e in fn.events("fld") if e[1] == "ModuleManager" and e[3][0] == "w"}
         r = {e[2] for _, _, e in fn.events("fld") if e[1] == "ModuleManager" and e[3][0] in "rb"} - w
         calls = [b["callee"] for _, b in fn.calls()]
-        if len(w) == 1 and len(r) == 1 and len(fn.blocks) <= 6 and all(re.search(r"::clone$|::deref", c) for c in calls):
-            pairs.append((fn, next(iter(r)), next(iter(w))))
+        if w and r and len(w) == len(r) and len(fn.blocks) <= 6 * len(w) and all(re.search(r"::clone$|::deref", c) for c in calls):
+            for snap_ in sorted(r):
+                pairs.append((fn, snap_, "/".join(sorted(w))))
     R.floor("C14.r", "restore routines of ModuleManager (live table <- snapshot)", len(pairs), 1)
     n = 0
     for rfn, snap, live in pairs:
